@@ -9,6 +9,21 @@ CHECKS = {
    "Every pass count for every item, every partition of s into <=10 bin counts (all for s=20, near-critical and a stride for s=50 in quick; all in thorough), ordered item pairs on both criteria, trailing bytes, unjudged items and the per-sample call log are fed to the real FactoryDetect/PowerOnDetect/PeriodDetect through stub registry runners; verdict, nil-ness of the error, the named item, bytes consumed and samples judged are compared with an independent model (exact integer threshold, 320-bit Q(9/2,.)). Complete over the stated families, not over all 2^(s*n*8) streams.",
    "trusted: stub seam (randomness.TestMethodArr is the only path from workflows to tests), math/big, refmodel closed form of Q for half-integer shapes",
    "DESIGN.md section 3 C07"),
+ "C08": ("E1-vsched", "model_checking",
+   "stateless deviation-bounded exploration of all interleavings of the instrumented implementation under an own controlled scheduler, differential against the sequential twin; free-running -race pass",
+   "The real FactoryDetectFast/PowerOnDetectFast/PeriodDetectFast (channels, WaitGroup, mutexes, atomics, go statements rewritten at check time from /repo's working tree) run under a cooperative scheduler; every schedule with at most d non-default scheduling decisions under three default policies is executed for W=1..3 workers on 14 verdict-sensitive result matrices and compared with the sequential function on the same bytes (verdict, named item, torn samples, unjudged samples, deadlock, leak, panic). Data races are decided by a separate free-running -race pass at GOMAXPROCS 1/2/16. Complete up to the stated deviation bound and worker count, not beyond.",
+   "sequential consistency at instrumented operations; W<=3; deviation bound 1 (quick) / 2 (thorough, not Factory); stub runners",
+   "DESIGN.md section 3 C08"),
+ "C09": ("E1-vsched + E3", "fault_enumeration",
+   "exhaustive enumeration of fault points (every byte offset / every Read index x kinds) on the real workflows; parallel variants under the controlled scheduler where a hang is a model deadlock",
+   "Sequential workflows and SingleDetect: the source fails at every byte offset (Period, Single) or 4 offsets per sample (125000-byte workflows) x 4 kinds x sticky/transient x read sizes; parallel workflows: fault at every Read index x 7 kinds x sticky/transient x W=1..3 at deviation bound 0 under two policies and bound 1/2 at five fault indices, every execution must end (no deadlock, leak, livelock) with (false, non-nil).",
+   "faults enter through io.Reader only; hang = no enabled thread in the controlled execution",
+   "DESIGN.md section 3 C09"),
+ "C10": ("E3 + E1-vsched", "fault_enumeration",
+   "exhaustive enumeration of read-size histories (<=2 deviations at every Read index, all compositions of 16/20 bytes) against the full-read run; parallel variants under the controlled scheduler crossing short reads with scheduling deviations",
+   "Every history with at most two short reads (1, half, all-but-one) at every Read index plus uniform chunkings on three sensitive marker-stream scenarios for the three sequential workflows; all 2^15 (2^19) compositions for SingleDetect(16/20); parallel workflows: the same short reads at deviation bound 0 under three policies and one short read x one scheduling deviation for W=2. Stale/zero bytes are observed directly by the stubs (markers, filler).",
+   "read alphabet {all,1,half,all-but-one}; <=2 deviations; W<=2; deviation bound 1 (2 for Period in thorough)",
+   "DESIGN.md section 3 C10"),
 }
 
 NOT_YET = {
